@@ -36,6 +36,17 @@ def v_ns(values, port):
     return None
 
 
+def _make_local_validator():
+    def v_local(value, port):
+        return None
+    return v_local
+
+
+# (validators as applications write them: an anonymous function, a function defined inside another one)
+v_lambda = lambda value, port: None  # noqa: E731
+v_local = _make_local_validator()
+
+
 def _rand_port_attrs(rng, kind):
     attrs = {}
     if rng.random() < 0.5:
@@ -45,7 +56,7 @@ def _rand_port_attrs(rng, kind):
     if rng.random() < 0.4:
         attrs['help'] = 'help-%d' % rng.randint(0, 99)
     if rng.random() < 0.3:
-        attrs['validator'] = 'v_pos'
+        attrs['validator'] = rng.choice(['v_pos', 'v_pos', 'v_lambda', 'v_local'])
     if kind == 'in' and rng.random() < 0.4:
         attrs['default'] = 3 if attrs.get('valid_type') != 'str' else 's'
         if 'valid_type' not in attrs and 'validator' not in attrs and rng.random() < 0.5:
@@ -101,7 +112,7 @@ def _is_anc(a, b):
 
 
 TYPES = {'int': int, 'str': str}
-VALIDATORS = {'v_pos': v_pos, 'v_ns': v_ns}
+VALIDATORS = {'v_pos': v_pos, 'v_ns': v_ns, 'v_lambda': v_lambda, 'v_local': v_local}
 
 
 def _kw(attrs):
